@@ -384,14 +384,19 @@ func init() {
 				w = GenListOfUnionsWorkload(r)
 			} else if idx%16 == 7 {
 				w = GenMergeWorkload(r)
+			} else if idx%16 == 15 {
+				w = GenCueImportsWorkload(r)
 			} else if r.Chance(2, 3) {
 				EnrichWorkload(r.Fork("enrich"), w, dir)
 			}
 			res := &CaseResult{}
 			base := simrt.Schedule{Default: simrt.Canonical}
-			s0, _, e0 := execWorkload(dir, w, base, nil, opts)
+			s0, o0, e0 := execWorkload(dir, w, base, nil, opts)
 			ctx.Account(e0)
 			res.Execs++
+			if ctx.Opt["trace"] != "" && o0 != nil {
+				fmt.Fprintf(os.Stderr, "trace: case %d %s status=%v run=%s load=%s\n", idx, w.Name, s0["run.status"], truncate(o0.ErrRun, 300), truncate(o0.ErrLoad, 300))
+			}
 			alts := []simrt.Schedule{
 				{Default: simrt.Reverse, Seed: r.U64()},
 				{Default: simrt.Shuffle, Seed: r.U64()},
